@@ -286,10 +286,13 @@ def run(ctx: Ctx) -> None:
     ctx.check("C09.R9", f"{M}:StreamBuffer.push", "buffer.extend(data)", len(ext) == 1 and norm(arg(ext[0], 0)) == "data", "push must append the chunk at the end of the buffer", push)
     rets = [n for n in walk_local(pop) if isinstance(n, ast.Return)]
     pd = provenance(rets[0].value, pop) if rets else None
-    ok = bool(rets) and "self.buffer" in pd.leaves and "[:length]" in pd.ops
     dl = [n for n in walk_local(pop) if isinstance(n, ast.Delete)]
-    ok = ok and len(dl) == 1 and norm(dl[0].targets[0]) == "self.buffer[:length]"
-    ln = provenance(ast.Name(id="length", ctx=ast.Load()), pop)
+    lv = "length"
+    if len(dl) == 1 and isinstance(dl[0].targets[0], ast.Subscript) and isinstance(dl[0].targets[0].slice, ast.Slice) and isinstance(dl[0].targets[0].slice.upper, ast.Name):
+        lv = dl[0].targets[0].slice.upper.id
+    ok = bool(rets) and "self.buffer" in pd.leaves and f"[:{lv}]" in pd.ops
+    ok = ok and len(dl) == 1 and norm(dl[0].targets[0]) == f"self.buffer[:{lv}]"
+    ln = provenance(ast.Name(id=lv, ctx=ast.Load()), pop)
     ok = ok and "min()" in ln.ops and "max_length" in ln.leaves and "len()" in ln.ops
     ctx.check("C09.R9", f"{M}:StreamBuffer.pop", "returns and removes buffer[:min(len, max_length)]", ok, f"pop returns {pd}; length {ln}", pop)
     pushes = find_calls(ss, "self.stream_buffers[].push")
